@@ -115,6 +115,34 @@ fn c05_small_bytes_roundtrip() {
     kani::cover!(len == 0);
 }
 
+/// Lengths beyond the symbolic-content bound: for every length up to 1100 (content all zero, so that the copies are
+/// memcpy of a symbolic size rather than loops over symbolic bytes) the stored value has that length and the right
+/// representation - length arithmetic (narrowing casts, capacity comparisons) is where long inputs go wrong.
+static ZEROS: [u8; 1100] = [0; 1100];
+
+#[kani::proof]
+#[kani::unwind(3)]
+fn c05_small_bytes_len_1100() {
+    let len: usize = kani::any();
+    kani::assume(len <= 1100);
+    let s = &ZEROS[..len];
+    let sb = SmallBytes::from(s);
+    assert!(sb.len() == len, "the stored value has the length of the input");
+    assert!(sb.is_empty() == (len == 0));
+    match &sb {
+        SmallBytes::Small { .. } => assert!(len <= 22),
+        SmallBytes::Large(_) => assert!(len > 22),
+    }
+    if len > 0 {
+        let i: usize = kani::any();
+        kani::assume(i < len);
+        assert!(sb[i] == 0);
+    }
+    kani::cover!(len == 256);
+    kani::cover!(len == 1100);
+    std::mem::forget(sb);
+}
+
 /// Eq on SmallBytes is slice equality (two symbolic strings of length <= 4).
 #[kani::proof]
 #[kani::unwind(42)]
